@@ -47,7 +47,7 @@ class Sim:
             self.ever_exceeded = False  # sticky for the whole process segment (reset() may be called often)
         import time as _t
 
-        self._t0 = _t.monotonic()
+        self._t0 = _t.process_time()  # CPU time: the bound must not depend on how busy the machine is
         # --- counters / logs
         self.solve_index = 0
         self.events = []
@@ -185,7 +185,7 @@ class SolverProxy:
         if not SIM.budget_exceeded:
             import time as _t
 
-            if SIM.solve_index >= SIM.max_solves or _t.monotonic() - SIM._t0 > SIM.max_wall:
+            if SIM.solve_index >= SIM.max_solves or _t.process_time() - SIM._t0 > SIM.max_wall:
                 SIM.budget_exceeded = True
                 SIM.ever_exceeded = True
         if SIM.budget_exceeded:
